@@ -1,4 +1,12 @@
 From Coq Require Extraction.
 From Coq Require Import ExtrOcamlBasic.
-From AIT Require Import Base.Vio C14.Model.
-Extraction "model.ml" vio_kit factorSpace toIndex toFactors factorSpacePartial toIndexPartial toFactorsPartial toIndexPartialPF.
+From AIT Require Import Base.Vio C14.Model C14.Spec C14.ModelAlg C14.ModelDDN.
+Extraction "model.ml" vio_kit factorSpace toIndex toFactors factorSpacePartial toIndexPartial toFactorsPartial toIndexPartialPF
+  checkTag removeFactor merge_keys_matches merge_keys merge_pf merge_vals match_pf match_f_pf match_keys match_pairs
+  toIndexPartialKPF toIndexPF toIndexPartialAndSkip
+  pfe_keys pfe_all pfe_skip pfe_skip_all pfe_advance pfe_isValid pfe_reset pfe_size pfe_visit
+  pie_make pie_make_all pie_visit enum_nth enum_count index_enum_spec
+  bf_dot bf_plus bf_minus bf_binop_alloc plusEqualSubset minusEqualSubset plusEqual minusEqual minusEqual_orig
+  plusEqualFV minusEqualFV getValue getValueW scaleW scale
+  graph_new graph_push getIds getId getIdP getIdsRev getSize getPartialSize getPartialSizeA
+  getTransitionProbability getTransitionProbabilityP backProject.
